@@ -22,6 +22,8 @@ type Guard struct {
 func (g *Guard) Apply() {
 	lock()
 	defer unlock()
+	verifHook("guard.apply.locked", g.origin, 0)
+	defer verifHook("guard.apply.unlocking", g.origin, 0)
 
 	g.applied = true
 	// 执行函数调用地址替换(延迟执行)
@@ -46,6 +48,8 @@ func (g *Guard) Unpatch() {
 func (g *Guard) UnpatchWithLock() {
 	lock()
 	defer unlock()
+	verifHook("guard.unpatch.locked", g.origin, 0)
+	defer verifHook("guard.unpatch.unlocking", g.origin, 0)
 	g.Unpatch()
 }
 
